@@ -1,21 +1,33 @@
-//! `nvh dump-tables`: constants and small tables of the compiled crate, as JSON on stdout.
-//! `extract/gen_tables.py` turns them into `lean/NaijaVerif/Gen/*.lean`.
+//! `nvh dump-tables`: constants and small tables of the compiled crate, as one JSON object on
+//! stdout. `extract/gen_*.py` turn them into `lean/NaijaVerif/Gen/*.lean`. Every family contributes
+//! its own keys through `dump_tables`.
 
 use naijascript::arena::verif_hooks as hooks;
 
 pub fn main(_args: &[String]) -> i32 {
-    let mut o = String::from("{\n");
-    o.push_str(&format!("\"pool_class_count\": {},\n", hooks::CLASS_COUNT));
-    o.push_str(&format!("\"pool_slot_sizes\": {:?},\n", hooks::slot_sizes()));
-    o.push_str(&format!("\"pool_slot_counts\": {:?},\n", hooks::slot_counts()));
+    let mut kv: Vec<(String, String)> = Vec::new();
+    kv.push(("pool_class_count".into(), hooks::CLASS_COUNT.to_string()));
+    kv.push(("pool_slot_sizes".into(), format!("{:?}", hooks::slot_sizes())));
+    kv.push(("pool_slot_counts".into(), format!("{:?}", hooks::slot_counts())));
     let table: Vec<String> = (0u32..=300)
-        .map(|n| match hooks::size_class(n) {
-            Some(c) => c.to_string(),
-            None => "null".to_string(),
-        })
+        .map(|n| hooks::size_class(n).map_or("null".to_string(), |c| c.to_string()))
         .collect();
-    o.push_str(&format!("\"pool_size_class_table\": [{}]\n", table.join(",")));
-    o.push_str("}\n");
-    print!("{o}");
+    kv.push(("pool_size_class_table".into(), format!("[{}]", table.join(","))));
+    crate::bump::dump_tables(&mut kv);
+    crate::strs::dump_tables(&mut kv);
+    crate::readline::dump_tables(&mut kv);
+    crate::proc::dump_tables(&mut kv);
+    crate::limits::dump_tables(&mut kv);
+    crate::capture::dump_tables(&mut kv);
+    crate::cli::dump_tables(&mut kv);
+    crate::lex::dump_tables(&mut kv);
+    crate::parse::dump_tables(&mut kv);
+    crate::resolve::dump_tables(&mut kv);
+    crate::run::dump_tables(&mut kv);
+    crate::plan::dump_tables(&mut kv);
+    crate::mem::dump_tables(&mut kv);
+    crate::depth::dump_tables(&mut kv);
+    let body: Vec<String> = kv.iter().map(|(k, v)| format!("\"{k}\": {v}")).collect();
+    println!("{{\n{}\n}}", body.join(",\n"));
     0
 }
